@@ -53,6 +53,11 @@ func appBatchCfg(r *h.Run, b int) appCfg {
 	if b%3 == 2 {
 		c.Mode = "blocking"
 	}
+	if b%4 == 3 {
+		// WebSocket keep-alive disabled: the upgrade clears the HTTP keep-alive deadline and nothing
+		// arms one again - an upgraded connection must not be closed by any timer
+		c.K2 = 0
+	}
 	return c
 }
 
@@ -64,7 +69,7 @@ func genApp(r *h.Run, idx int, cfg appCfg) appHist {
 	}
 	a.N = rng.Intn(4)
 	k := cfg.K
-	if a.Kind == "ws" {
+	if a.Kind == "ws" && cfg.K2 > 0 {
 		k = cfg.K2
 	}
 	a.Edge = rng.Intn(8) == 0
@@ -339,6 +344,10 @@ func (x *arun) effects(tDial, tWit int64) []dl.Effect {
 	effs := []dl.Effect{{Kind: "set", Call: tDial, Ret: tWit, Dmin: tDial + K, Dmax: tWit + K}}
 	k := K
 	if x.up[0] != 0 {
+		if K2 == 0 {
+			// keep-alive disabled: the upgrade cancels the deadline and messages do not renew it
+			return append(effs, dl.Effect{Kind: "clear", Call: x.up[0], Ret: x.up[1], MustClear: true})
+		}
 		effs = append(effs, dl.Effect{Kind: "set", Call: x.up[0], Ret: x.up[1], Dmin: x.up[0] + K2, Dmax: x.up[1] + K2})
 		k = K2
 	} else if x.hs.Kind == "ws" {
@@ -548,6 +557,11 @@ func (x *arun) run(r *h.Run, e *appEnv, mon *dl.Monitor) {
 		if sc != nil && sc.T < t {
 			t = sc.T
 		}
+		if dl.Final(effs).Armed == dl.No && (sc == nil || !(errors.Is(sc.Err, nbio.ErrReadTimeout) || isTimeout(sc.Err))) {
+			// no deadline is armed and the close is not a timeout: not a deadline matter
+			x.incon = fmt.Sprintf("WebSocket keep-alive disabled, connection ended with %v / server %s (no timeout)", eofErr, scString(sc))
+			return
+		}
 		v := dl.CheckTimeoutClose(effs, t)
 		if v.Symptom != "" {
 			x.viol = append(x.viol, []string{"c16:" + feat + ":" + mode + ":closed-early",
@@ -574,6 +588,11 @@ func (x *arun) run(r *h.Run, e *appEnv, mon *dl.Monitor) {
 			}
 			return
 		}
+		if st.Armed == dl.No {
+			// closed without a timeout (e.g. an error of the transport): nothing to decide here
+			x.incon = fmt.Sprintf("WebSocket keep-alive disabled, connection ended with %v (no timeout)", eofErr)
+			return
+		}
 		g := mon.MaxGap(ub, tEOF)
 		if fired && l <= maxCtlLate && g <= maxMonGap && sc != nil && sc.T-ub > slack {
 			x.viol = append(x.viol, []string{"c16:" + feat + ":" + mode + ":closed-late",
@@ -581,6 +600,14 @@ func (x *arun) run(r *h.Run, e *appEnv, mon *dl.Monitor) {
 			return
 		}
 		x.incon = fmt.Sprintf("close seen %s after the keep-alive deadline, machine possibly starved (control late %v, gap %v)", dl.Ms(tEOF-ub), l, g)
+		return
+	}
+	if st.Armed == dl.No && x.hs.Kind == "ws" && x.cfg.K2 == 0 && x.up[0] != 0 {
+		// keep-alive disabled and the connection outlived every deadline that was ever armed
+		// (the HTTP keep-alive from the accept, bounded by now+K when the wait began) plus slack
+		x.outcome = "stayed-open(keep-alive disabled)"
+		x.decided = true
+		r.Count("app_ws_keepalive_disabled_stayed_open", 1)
 		return
 	}
 	// ---- not closed: stuck-state confirmation at +5 s and +10 s
